@@ -490,7 +490,7 @@ hrnp_checksum.shapes = _hck_shapes
 
 
 # ---------------------------------------------------------------------------------------------- HRNP frames
-@contract("HRNP.as_bytes", "okdmr.dmrlib.hytera.pdu.hrnp:HRNP.as_bytes", ["C12", "C19"], stubs=["HRNP.verify_checksum", "HDAP.get_hdap_checksum"])
+@contract("HRNP.as_bytes", "okdmr.dmrlib.hytera.pdu.hrnp:HRNP.as_bytes", ["C12", "C19", "C04"], stubs=["HRNP.verify_checksum", "HDAP.get_hdap_checksum"])
 def hrnp_frame(vc, opcode, inner=None, anylen=None):
     data, inner_raw = None, b""
     if opcode == "DATA":
